@@ -543,4 +543,348 @@ theorem insertCore_topOK (st : St) (dict : Dict) (r : Rule) (idx : Nat) (inOrder
         · exact hins'
     · exact hins'
 
+theorem inst_kind (p : Option Nat) (n : Nat) (s : Spec) : (Spec.inst p n s).1.kind = s.kind := by
+  cases s; simp [Spec.inst]
+
+theorem kindsOf_replaceUri (p u : Cps) (l : List Rule) : kindsOf (replaceUri p u l) = kindsOf l := by
+  simp only [kindsOf, replaceUri, List.map_map]
+  apply List.map_congr_left
+  intro r _
+  simp only [Function.comp]
+  split <;> rfl
+
+/-- every kind in the list after `insertCore` was there before or is the candidate's -/
+theorem insertCore_kinds (st : St) (dict : Dict) (r : Rule) (idx : Nat) (inOrder clean track : Bool) :
+    ∀ k ∈ kindsOf (insertCore st dict r idx inOrder clean track).1.rules, k = r.kind ∨ k ∈ kindsOf st.rules := by
+  have hins : ∀ i (r' : Rule), r'.kind = r.kind → ∀ l : List Rule, l.Sublist (pyInsert st.rules i r') →
+      ∀ k ∈ kindsOf l, k = r.kind ∨ k ∈ kindsOf st.rules := by
+    intro i r' hr' l hl k hk
+    have := (kindsOf_sublist hl).subset hk
+    rw [kindsOf_pyInsert, hr'] at this
+    rcases List.mem_append.mp this with h | h
+    · exact Or.inr (List.mem_of_mem_take h)
+    · rcases List.mem_cons.mp h with h | h
+      · exact Or.inl h
+      · exact Or.inr (List.mem_of_mem_drop h)
+  unfold insertCore
+  split
+  · intro k hk; exact Or.inr hk
+  · intro k hk
+    have : k ∈ kindsOf (setEnc0 r.enc st.rules) := hk
+    rw [kindsOf_setEnc0] at this; exact Or.inr this
+  · rename_i i _
+    split
+    · split
+      · intro k hk; exact Or.inr hk
+      · split
+        · have hsub := cleanNamespaces_sublist (pyInsert st.rules i r)
+          dsimp only
+          split
+          · exact hins i r rfl _ hsub
+          · split
+            · intro k hk
+              have : k ∈ kindsOf (adoptId r.id (cleanNamespaces (pyInsert st.rules i r)).1) := hk
+              rw [kindsOf_adoptId] at this
+              exact hins i r rfl _ hsub k this
+            · exact hins i r rfl _ hsub
+        · exact hins i r.adopt rfl _ (List.Sublist.refl _)
+    · exact hins i r.adopt rfl _ (List.Sublist.refl _)
+
+theorem actOf_ins_kind {raising : Bool} {p : PSt} {s : Spec} {r : Rule} {nx : Nat} {nd : Dict} {cl : Bool}
+    (h : actOf raising p s = .ins r nx nd cl) : r.kind = s.kind := by
+  unfold actOf at h
+  split at h
+  · cases h
+  · split at h
+    · rename_i hk
+      split at h
+      · cases h
+      · split at h
+        · injection h with h; subst h; exact hk.symm
+        · cases h
+    · split at h
+      · rename_i hk
+        split at h
+        · injection h with h; subst h; exact hk.symm
+        · cases h
+      · split at h
+        · rename_i hk
+          split at h
+          · cases h
+          · injection h with h; subst h; exact hk.symm
+        · split at h
+          · rename_i hk
+            split at h
+            · cases h
+            · injection h with h; subst h; exact hk.symm
+          · injection h with h; subst h; rfl
+
+/-- the three shapes of the rule list after one statement -/
+theorem parseOne_acc {raising : Bool} {p q : PSt} {s : Spec} (h : parseOne raising p s = .ok q) :
+    q.acc = p.acc ∨ q.acc = replaceUri s.pre s.uri p.acc ∨
+    ∃ r cl, r.kind = s.kind ∧ q.acc = (pInsert raising p r cl).1 := by
+  unfold parseOne at h
+  split at h
+  · cases h
+  · split at h
+    · cases h
+    · injection h with h; subst h
+      left; split <;> rfl
+  · injection h with h; subst h; right; left; rfl
+  · rename_i r nx nd cl hact
+    split at h
+    · cases h
+    · rename_i acc o _ hres
+      injection h with h; subst h
+      right; right
+      exact ⟨r, cl, actOf_ins_kind hact, by simp [hres]⟩
+
+theorem pInsert_topOK (raising : Bool) (p : PSt) (r : Rule) (cl : Bool) (h : TopOK p.acc) :
+    TopOK (pInsert raising p r cl).1 := by
+  unfold pInsert
+  exact insertCore_topOK _ _ _ _ false _ _ h (by simp) (by simp)
+
+theorem parseOne_topOK {raising : Bool} {p q : PSt} {s : Spec} (h : parseOne raising p s = .ok q)
+    (hp : TopOK p.acc) : TopOK q.acc := by
+  rcases parseOne_acc h with h | h | ⟨r, cl, _, h⟩
+  · rw [h]; exact hp
+  · rw [h]; unfold TopOK; rw [kindsOf_replaceUri]; exact hp
+  · rw [h]; exact pInsert_topOK raising p r cl hp
+
+theorem parseTop_topOK {raising : Bool} {specs : List Spec} {p q : PSt} (h : parseTop raising p specs = .ok q)
+    (hp : TopOK p.acc) : TopOK q.acc := by
+  induction specs generalizing p with
+  | nil => simp only [parseTop] at h; injection h with h; subst h; exact hp
+  | cons s ss ih =>
+    simp only [parseTop] at h
+    split at h
+    · cases h
+    · rename_i p' hp'
+      exact ih h (show TopOK p'.acc from parseOne_topOK hp' hp)
+
+theorem topOK_nil : TopOK [] := by simp [TopOK, TopK]
+
+/-- `sheet.cssText = …` always leaves an ordered list: the new one (built by insertRule calls) or the old one -/
+theorem setText_topOK (st : St) (specs : List Spec) (h : TopOK st.rules) : TopOK (setText st specs).1.rules := by
+  unfold setText
+  split
+  · exact h
+  · rename_i p hp
+    exact topOK_sublist (parseTop_topOK hp topOK_nil) (cleanNamespaces_sublist _)
+
+theorem deleteRule_topOK (st : St) (i : Int) (h : TopOK st.rules) : TopOK (deleteRule st i).1.rules := by
+  unfold deleteRule
+  split
+  · exact h
+  · split
+    · exact h
+    · split
+      · exact h
+      · exact topOK_sublist h (List.eraseIdx_sublist _ _)
+
+theorem parseCand_kind {raising : Bool} {d : Dict} {n : Nat} {s : Spec} {c : Rule × Nat}
+    (h : parseCand raising d n s = .ok (some c)) : c.1.kind = s.kind := by
+  unfold parseCand at h
+  split at h
+  · cases h
+  · rename_i q hq
+    split at h
+    · rename_i r hacc
+      injection h with h; injection h with h; subst h
+      show r.kind = s.kind
+      rcases parseOne_acc hq with h | h | ⟨r', cl, hk, h⟩
+      · rw [hacc] at h; cases h
+      · rw [hacc] at h; simp [replaceUri] at h
+      · have := insertCore_kinds { rules := [], gone := [], next := 0, raising := raising } d r' 0 false cl false
+        unfold pInsert at h
+        simp only [List.length_nil] at h
+        rw [← h, hacc] at this
+        have := this r.kind (by simp [kindsOf])
+        simpa [hk] using this
+    · cases h
+
+theorem idx_of_len (index : Option Int) (n idx : Nat) (hi : idxOf index n = some idx)
+    (hx : index = none ∨ index = some (n : Int)) : idx = n := by
+  unfold idxOf at hi
+  rcases hx with hx | hx
+  · subst hx; simpa using hi.symm
+  · subst hx
+    simp at hi
+    omega
+
+theorem insertRule_topOK (st : St) (s : Spec) (index : Option Int) (inOrder viaStr track : Bool)
+    (h : TopOK st.rules)
+    (hbug : ¬ (inOrder = true ∧ s.kind = .vars ∧ varsScanBug (kindsOf st.rules) = true))
+    (hfb : inOrder = true → orderedFallback (kindsOf st.rules) s.kind = true →
+      index = none ∨ index = some (st.rules.length : Int)) :
+    TopOK (insertRule st s index inOrder viaStr track).1.rules := by
+  unfold insertRule
+  dsimp only
+  split
+  · split
+    · exact h
+    · rename_i idx hi
+      split
+      · exact h
+      · exact h
+      · rename_i c hc
+        refine insertCore_topOK { rules := st.rules, gone := st.gone, next := _, raising := st.raising }
+          _ _ _ _ _ _ h ?_ ?_
+        · rw [parseCand_kind hc]; exact hbug
+        · rw [parseCand_kind hc]; intro hio hof; exact idx_of_len index _ idx hi (hfb hio hof)
+  · split
+    · exact h
+    · rename_i idx hi
+      split
+      · exact h
+      · refine insertCore_topOK { rules := st.rules, gone := st.gone, next := _, raising := st.raising }
+          _ _ _ _ _ _ h ?_ ?_
+        · rw [inst_kind]; exact hbug
+        · rw [inst_kind]; intro hio hof; exact idx_of_len index _ idx hi (hfb hio hof)
+
+theorem setEncoding_topOK (st : St) (e : Cps) (valid : Bool) (h : TopOK st.rules) :
+    TopOK (setEncoding st e valid).1.rules := by
+  have hfresh : TopOK ((if e.isEmpty = true then (st, Outcome.none)
+      else if (!valid) = true then (st, logError st.raising .syntaxErr)
+      else ((insertRule st ⟨.charset, [], [], e, [], []⟩ (some 0) false false false).1,
+        match (insertRule st ⟨.charset, [], [], e, [], []⟩ (some 0) false false false).2 with
+        | .ok _ => Outcome.none
+        | o => o)) : St × Outcome).1.rules := by
+    split
+    · exact h
+    · split
+      · exact h
+      · exact insertRule_topOK st _ _ false false false h (by simp) (by simp)
+  unfold setEncoding
+  dsimp only
+  split
+  · exact hfresh
+  · rename_i r rest hr
+    split
+    · split
+      · split
+        · show TopOK ({ r with enc := e } :: rest)
+          rw [hr] at h; exact h
+        · exact h
+      · exact deleteRule_topOK st 0 h
+    · exact hfresh
+
+theorem nsSet_topOK (st : St) (p u : Cps) (h : TopOK st.rules) : TopOK (nsSet st p u).1.rules := by
+  unfold nsSet
+  split
+  · exact insertRule_topOK st _ none true false false h (by simp) (by simp)
+  · split
+    · exact h
+    · split <;> exact h
+
+theorem nsDel_topOK (st : St) (p : Cps) (h : TopOK st.rules) : TopOK (nsDel st p).1.rules := by
+  unfold nsDel
+  split
+  · exact deleteRule_topOK st _ h
+  · exact h
+
+/-! ## operations on nested lists leave the kinds of the sheet's own list alone -/
+
+theorem kindsOf_set_same (l : List Rule) (i : Nat) (c c0 : Rule) (h0 : l[i]? = some c0) (hk : c.kind = c0.kind) :
+    kindsOf (l.set i c) = kindsOf l := by
+  unfold kindsOf
+  rw [List.map_set, hk]
+  apply List.ext_getElem?
+  intro j
+  by_cases hj : i = j
+  · subst hj
+    rw [List.getElem?_set_self']
+    simp [h0]
+  · rw [List.getElem?_set_ne hj]
+
+theorem kindsOf_setPath (rules : List Rule) (path : List Nat) (c c0 : Rule)
+    (h0 : atPath rules path = some c0) (hk : c.kind = c0.kind) :
+    kindsOf (setPath rules c path) = kindsOf rules := by
+  match path with
+  | [] => simp [atPath] at h0
+  | [i] =>
+    simp only [atPath] at h0
+    simp only [setPath]
+    exact kindsOf_set_same rules i c c0 h0 hk
+  | i :: j :: p =>
+    simp only [atPath] at h0
+    simp only [setPath]
+    split
+    · rfl
+    · rename_i r hr
+      exact kindsOf_set_same rules i _ r hr rfl
+
+theorem cInsert_kind (raising : Bool) (c r : Rule) (index : Option Int) (viaStr : Bool) :
+    (cInsert raising c r index viaStr).1.kind = c.kind := by
+  unfold cInsert
+  dsimp only
+  split
+  · rfl
+  · split <;> rfl
+
+theorem cDelete_kind (c : Rule) (i : Int) : (cDelete c i).1.kind = c.kind := by
+  unfold cDelete
+  split
+  · rfl
+  · split <;> rfl
+
+theorem cSetText_kind (raising : Bool) (d : Dict) (n : Nat) (c : Rule) (kids : List Spec) :
+    (cSetText raising d n c kids).1.kind = c.kind := by
+  unfold cSetText
+  dsimp only
+  split <;> rfl
+
+theorem nInsert_kinds (st : St) (path : List Nat) (s : Spec) (index : Option Int) (viaStr : Bool) :
+    kindsOf (nInsert st path s index viaStr).1.rules = kindsOf st.rules := by
+  unfold nInsert
+  split
+  · rfl
+  · rename_i c hc
+    split
+    · rfl
+    · split
+      · split
+        · rfl
+        · split
+          · rfl
+          · rfl
+          · exact kindsOf_setPath _ _ _ c hc (cInsert_kind _ _ _ _ _)
+      · exact kindsOf_setPath _ _ _ c hc (cInsert_kind _ _ _ _ _)
+
+theorem nDelete_kinds (st : St) (path : List Nat) (i : Int) :
+    kindsOf (nDelete st path i).1.rules = kindsOf st.rules := by
+  unfold nDelete
+  split
+  · rfl
+  · rename_i c hc
+    split
+    · rfl
+    · exact kindsOf_setPath _ _ _ c hc (cDelete_kind _ _)
+
+theorem nSetText_kinds (st : St) (path : List Nat) (kids : List Spec) :
+    kindsOf (nSetText st path kids).1.rules = kindsOf st.rules := by
+  unfold nSetText
+  split
+  · rfl
+  · rename_i c hc
+    split
+    · rfl
+    · exact kindsOf_setPath _ _ _ c hc (cSetText_kind _ _ _ _ _)
+
+/-! ## rule descriptions used by the witnesses in `Props/C09.lean` -/
+namespace Wit
+def commentS : Spec := ⟨.comment, [], [], [], [], []⟩
+def unknownS : Spec := ⟨.unknown, [], [], [], [], []⟩
+def importS : Spec := ⟨.imp, [], [], [], [], []⟩
+def varsS : Spec := ⟨.vars, [], [], [], [], []⟩
+def styleS : Spec := ⟨.style, [], [], [], [], []⟩
+def styleUsing (u : Nat) : Spec := ⟨.style, [], [], [], [[u]], []⟩
+def fontfaceS : Spec := ⟨.fontface, [], [], [], [], []⟩
+def charsetS (e : Nat) : Spec := ⟨.charset, [], [], [e], [], []⟩
+def nsS (p u : Nat) : Spec := ⟨.ns, [p], [u], [], [], []⟩
+def marginS (m : Nat) : Spec := ⟨.margin, [m], [], [], [], []⟩
+def mediaS (kids : List Spec) : Spec := ⟨.media, [], [], [], [], kids⟩
+def pageS (kids : List Spec) : Spec := ⟨.page, [], [], [], [], kids⟩
+end Wit
+
 end CssVerif.SheetEdit
